@@ -16,9 +16,9 @@ PRIV_RULE = ("harness/src/bin/wrappers.rs: the REAL build_private_batch_constrai
              "equality hints, forged comparator splits, forged sum bits) for N<=3. All gate constraints evaluated; accept/reject and all "
              "21N+8 outputs compared with the Coq model (hon/ovr); fid 605 = hint-generator fingerprint vs model trace. "
              "distinct = distinct (fid, input, overrides); non-trivial = N >= 2 or an override present")
-HARNESS = [("wrappers", ["priv"])]
+HARNESS = [("wrappers", ["priv"]), ("recursive", ["priv"])]
 FIDS = [601, 605]
-RULE = PRIV_RULE
+RULE = PRIV_RULE + (' Additionally harness/src/bin/recursive.rs (tags "full-recursive/..."): the FULL PrivateBatchCircuit::new (wrapper + add_recursive_verifiers) for N in {1,2,3} (thorough: up to 4) over really proved fake-leaf child proofs, built with the no-blinding and with the real wormhole_private_batch_circuit_config(), really proved and verified; out = public inputs of the real proof, or [0] when proving fails; same generator (batches with amounts outside u32 skipped: the child circuit rejects them), stratified over its branches, plus slot permutations.')
 
 
 def nontrivial(case, model_out):
